@@ -7,7 +7,18 @@ from ..propsbase import *
 ASSUMPTIONS = ["witness-space search over the REAL constraint system recorded by the snarkjs backend run over the small prime 97 "
                "(snarkjsbackend.snarkjsp assigned in the worker) at bitlengths 2..5 (2^(n+1) <= 97): every wire the operation "
                "introduced is unknown, every earlier wire keeps its value; complete enumeration (exhaustive for each instance)",
-               "the Lean theorems quantify over all primes/widths/assignments; the small field is only the search space of the oracle"]
+               "the Lean theorems quantify over all primes/widths/assignments; the small field is only the search space of the oracle",
+               "selections whose branches are FUNCTIONS, through the library's own if_then_else(c, f, g) (instructions fthen/fmid/felse/fleave/fsel of "
+               "harness/worker.py; both / only the then / only the else branch a function; c = 0 and 1, given or computed by a comparison; bodies "
+               "with bit decompositions, constant shifts, bitwise operations and comparisons of secrets, products, assertions): target = the "
+               "selected value; search over p = 97 with the operands fixed AND the wires of the branch function that was not taken kept at their "
+               "recorded values (its gadgets are relaxed by the false guard by design); model-backed at level S (the model reads the instructions "
+               "as guarded(c) region, guarded(~c) region, selection)",
+               "WIDE words over the real field BN254 (bitlength 72, 100, 128, 250, and to_bits(n) with n above the bitlength; operands below 2^64 "
+               "and up to the width; to_bits()[k], to_bits/from_bits round trip, >> constant, &, |, ^ of secrets, <, <=, >, >=, check_positive): "
+               "no enumeration is possible there; the oracle is a forgery search (harness/solve.py forge): from the honest witness change one "
+               "free wire (flip a 0/1 wire, increment another) and repair all constraints it breaks by single-unknown solving on untouched "
+               "wires; a repaired assignment that satisfies every constraint and changes the result is reported; sound, not complete"]
 PARTIAL = ["C02_determined (program level) is for runs inside SoundFragment (Spec/SoundProg.lean, table Instr.excl); excluded with reason: "
            "guardRegion (guarded regions: soundness under a guard not yet composed, covered by the oracle only), ignoreErrors (set ign: outside the "
            "property), secretLiteral (a literal holding a LinComb is not an API value), widthTooLarge (explicit width n with 2^(n+1) > p)",
@@ -112,6 +123,74 @@ def gen_case(rnd, cid):
     return progs.Case(cid, cfg, b.ins, meta)
 
 
+C02_THUNK_GADGETS = ["rshift", "rshift", "and", "or", "xor", "lt", "le", "ge", "gt", "eq", "ne", "to_bits_rt", "to_bits_bit", "mul", "add_int",
+                     "check_positive", "assert_cmp", "assert_nonzero"]
+WIDE_WIDTHS = [72, 100, 128, 250]
+
+
+def gen_thunk_case(rnd, cid):
+    """a selection whose branches are FUNCTIONS (`if_then_else(c, f, g)`, `if_then_else(c, v, g)`, `if_then_else(c, f, v)`) holding
+    gadgets that determine their result on the unchanged tree (no //, %, no bitwise operation with a public int); target = the selection"""
+    c = progs.thunk_case(rnd, cid, p=P, bitlengths=[2, 3, 3, 4], gadgets=C02_THUNK_GADGETS, nest=False)
+    c.instrs = [t.replace("mk const", "mk priv") for t in c.instrs]
+    return c
+
+
+def dead_branch_wires(r):
+    """private wires allocated inside the branch function that was NOT taken (indices)"""
+    cv = r.case.meta["cond"]
+    out = set()
+    open_ = None
+    for k, t in enumerate(r.case.instrs[:len(r.nc)]):
+        w = t.split()[0]
+        if w in ("fthen", "felse"):
+            open_ = (k, w)
+        elif w in ("fmid", "fleave") and open_:
+            taken = (cv == 1) if open_[1] == "fthen" else (cv == 0)
+            if not taken:
+                out |= set(range(r.nc[open_[0]][1], r.nc[k][1]))
+            open_ = None
+    return out
+
+
+def gen_wide_case(rnd, cid):
+    """operations on WIDE words over the real field (BN254): bitlength 72 / 100 / 128 / 250, or an explicit width above the bitlength;
+    operands below 2^64 and up to the width.  Judged by the forgery search (solve.forge), not by enumeration."""
+    w = rnd.choice(WIDE_WIDTHS)
+    explicit = rnd.random() < 0.25
+    cfg = {"p": common.BN128, "bl": 16 if explicit else w, "res": 0, "ign": 0}
+    b = progs.Builder(rnd, cfg)
+    def val():
+        c = rnd.random()
+        if c < 0.3: return rnd.choice([0, 1, 5, 1000, 65535])
+        if c < 0.6: return rnd.randrange(0, 1 << rnd.choice([20, 40, 63, 64]))
+        return rnd.randrange(0, 1 << (w - 2))
+    mk = lambda v: b.emit(f"mk priv r{b.int_lit(v)}", "L")
+    x = mk(val())
+    if explicit:
+        op = rnd.choice(["to_bits_bit", "to_bits_rt"])
+    else:
+        op = rnd.choice(["to_bits_bit", "to_bits_bit", "to_bits_rt", "rshift", "rshift", "and", "or", "xor", "lt", "le", "gt", "ge", "check_positive"])
+    if op in ("to_bits_bit", "to_bits_rt"):
+        bits = b.emit(f"call to_bits r{x}" + (f" r{b.int_lit(w)}" if explicit else ""), "list")
+        if op == "to_bits_bit":
+            rr = b.emit(f"idx r{bits} {rnd.choice([0, 1, w // 2, w - 2, w - 1, rnd.randrange(0, w)])}", "B")
+        else:
+            rr = b.emit(f"call from_bits r{bits}", "L")
+    elif op == "rshift":
+        rr = b.emit(f"bin rshift r{x} r{b.int_lit(rnd.choice([1, 2, 8, w // 2, w - 1, rnd.randrange(0, w)]))}", "L")
+    elif op == "check_positive":
+        rr = b.emit(f"call check_positive r{b.emit(f'bin sub r{x} r{mk(val())}', 'L')}", "B")
+    else:
+        rr = b.emit(f"bin {op} r{x} r{mk(val())}", "B" if op in progs.CMPS else "L")
+    return progs.Case(cid, cfg, b.ins, {"shape": "wide", "op": op, "kinds": f"width-{w}" + (":explicit" if explicit else ""), "target": rr, "width": w})
+
+
+def forge_job(job):
+    _, cons, honest, locked, results = job
+    return solve.forge(cons, honest, locked, results, common.BN128)
+
+
 def result_wires(regstr):
     """list of (kind, lc-string) for the secrets in a canonical register string"""
     import re
@@ -148,11 +227,33 @@ def explore(ctx, extended=False, focus=None):
                "boolean result outside {0,1}; distinct = (operator, kinds, bitlength, operand values)")
     n = ctx.n(750, 24000) * (4 if extended else 1)
     cases = corpus_cases("C02") + [gen_case(ctx.rnd, f"c02_{i}") for i in range(n)]
+    cases += [gen_thunk_case(ctx.rnd, f"c02t_{i}") for i in range(n // 5)]
+    cases += [gen_wide_case(ctx.rnd, f"c02w_{i}") for i in range(n // 15)]
     recs = execute_all(cases)
     jobs = []; jobrecs = []
+    fjobs = []; fjobrecs = []
     for r in recs:
         account(ex, r)
         correspond(ex, r, LEVELS)
+        if r.case.meta.get("shape") == "wide":
+            # wide words over the real field: no enumeration; forgery search from the honest witness (solve.forge)
+            t = r.case.meta["target"]
+            ex.count(f"wide:{r.case.meta['op']}:{r.case.meta['kinds']}:{r.errcls or 'ok'}")
+            if not r.ok or t >= len(r.regs) or r.unsat:
+                continue
+            secrets = result_wires(r.regs[t])
+            if not secrets:
+                continue
+            pw = common.BN128
+            honest = {"1": 1}
+            honest.update({f"x{i+1}": v % pw for i, v in enumerate(r.pub)}); honest.update({f"w{i+1}": v % pw for i, v in enumerate(r.priv)})
+            locked = {"1"} | {f"x{i+1}" for i in range(len(r.pub))}
+            for k, ins in enumerate(r.case.instrs[:t + 1]):
+                if ins.startswith("mk ") and k < len(r.nc) and r.nc[k][1] > (r.nc[k - 1][1] if k > 0 else 0):
+                    locked.add(f"w{(r.nc[k - 1][1] if k > 0 else 0) + 1}")
+            fjobs.append((len(fjobs), solve.parse_cons(r.cons), honest, locked, [solve.parse_lc(lc) for _, lc in secrets]))
+            fjobrecs.append((r, t, secrets))
+            continue
         if r.ok and "target" not in r.case.meta and r.case.meta.get("shape") == "corpus":
             r.case.meta["target"] = len(r.regs) - 1
         if not r.ok or "target" not in r.case.meta:
@@ -172,6 +273,11 @@ def explore(ctx, extended=False, focus=None):
                 lo = r.nc[k - 1][1] if k > 0 else 0
                 if r.nc[k][1] > lo:
                     inputs.add(lo)          # the input wire itself (a boolean input adds no further wire)
+        if r.case.meta.get("shape") == "thunk":
+            # the wires of the branch function that was NOT taken keep their recorded values (the prover plays the dead branch
+            # honestly; its gadgets are relaxed by design and would only blow the enumeration up); everything else is the prover's
+            inputs |= {i for i in dead_branch_wires(r) if i < npriv1}
+            ex.count(f"thunk:{r.case.meta['kinds']}")
         for i in inputs:
             fixed[f"w{i+1}"] = r.priv[i] % P
         unknown = [f"w{i+1}" for i in range(npriv1) if i not in inputs]
@@ -185,6 +291,18 @@ def explore(ctx, extended=False, focus=None):
     import multiprocessing as mp
     with mp.Pool(min(14, max(1, len(jobs)))) as pool:
         results = pool.map(search_job, jobs, chunksize=4)
+        fresults = pool.map(forge_job, fjobs, chunksize=1) if fjobs else []
+    for (r, t, secrets), fr in zip(fjobrecs, fresults):
+        ex.count("forgery-search:" + ("forged" if fr else "none"))
+        ex.distinct.add(("wide", r.case.meta["op"], r.case.meta["kinds"], tuple(r.priv[:2])))
+        if fr:
+            u, changed, got = fr
+            sig = instr_sig(r.case, r.regs, t)
+            sig.update(dev="forged-on-wide-word", mode="wide-word-forgery", width="above-64-bits")
+            ex.violations.append(Violation(sig, f"{r.case.instrs[t]} at width {r.case.meta['width']} over BN254: changing the single witness wire {u} "
+                                                f"(and repairing {len(changed) - 1} others) satisfies every emitted constraint and gives the result "
+                                                f"{[g if g < (1 << 200) else g - common.BN128 for g in got]} instead of the honest one",
+                                           {"case": r.case.line(), "target": t, "changed_wire": u, "forged_wires": changed, "forged_result": got}))
     for (r, t, inputs, want), (nsol, alt, nonbool, complete) in zip(jobrecs, results):
         ex.count("search:complete" if complete else "search:limit")
         ex.distinct.add((r.case.meta["op"], r.case.meta["kinds"], r.case.cfg["bl"], tuple(r.priv[i] for i in sorted(inputs)), tuple(r.pub), r.case.meta.get("history", False)))
@@ -204,7 +322,7 @@ def explore(ctx, extended=False, focus=None):
         if alt:
             ex.violations.append(Violation(dict(sig, dev="result-not-determined"),
                                            f"{r.case.instrs[t]}: the emitted constraints are also satisfied with result {alt[1]} (honest: {want}) over p=97",
-                                           {"case": r.case.line(), "alternative_witness": alt[0], "result": alt[1], "honest": want}))
+                                           {"case": r.case.line(), "target": t, "alternative_witness": alt[0], "result": alt[1], "honest": want}))
         if nonbool:
             ex.violations.append(Violation(dict(sig, dev="boolean-not-forced"),
                                            f"{r.case.instrs[t]}: a satisfying assignment gives a boolean-typed result outside {{0,1}}: {nonbool[1]}",
@@ -215,5 +333,23 @@ def explore(ctx, extended=False, focus=None):
 
 
 def replay(ctx, payload):
-    replay_case(payload["replay"]["case"])
+    rp = payload["replay"]
+    r = replay_case(rp["case"])
+    alt = rp.get("forged_wires") or rp.get("alternative_witness")
+    if alt and "target" in rp and not r.harness_error and r.ok and rp["target"] < len(r.regs):
+        # re-execute on the real code, put the recorded alternative values on their wires and re-check EVERY constraint
+        pw = int(rp["case"].split("|")[2].split(",")[0].split("=")[1])
+        asg = {"1": 1}
+        asg.update({f"x{i+1}": v % pw for i, v in enumerate(r.pub)}); asg.update({f"w{i+1}": v % pw for i, v in enumerate(r.priv)})
+        secrets = result_wires(r.regs[rp["target"]])
+        honest = [solve.ev(solve.parse_lc(lc), asg, pw) for _, lc in secrets]
+        asg.update({w: int(v) for w, v in alt.items()})
+        cons = solve.parse_cons(r.cons if rp.get("forged_wires") else r.cons[:r.nc[rp["target"]][0]])
+        bad = [i for i, (a, b, c) in enumerate(cons) if (solve.ev(a, asg, pw) * solve.ev(b, asg, pw) - solve.ev(c, asg, pw)) % pw != 0]
+        got = [solve.ev(solve.parse_lc(lc), asg, pw) for _, lc in secrets]
+        print(f"alternative witness ({len(alt)} wires changed): {len(cons) - len(bad)} of {len(cons)} constraints hold; result {got} (honest {honest})")
+        if not bad and got != honest:
+            print("VIOLATION property=C02 replay=(given) reproduced: a second witness with another result")
+            return 1
+        print("not reproduced on this tree")
     return 0
